@@ -398,17 +398,17 @@ func handleLPush(params internal.HandlerFuncParams) ([]byte, error) {
 		switch strings.ToLower(params.Command[0]) {
 		case "lpushx":
 			return nil, errors.New("LPUSHX command on non-existent key")
-		default:
-			if err = params.SetValues(params.Context, map[string]interface{}{key: []string{}}); err != nil {
-				return nil, err
-			}
 		}
 	}
 
-	currentList := params.GetValues(params.Context, []string{key})[key]
-	l, ok := currentList.([]string)
-	if !ok {
-		return nil, errors.New("LPUSH command on non-list item")
+	// A key that does not exist is pushed to as an empty list. It is created by the single write below,
+	// so that nothing is left behind if that write is refused.
+	var l []string
+	if keyExists {
+		var ok bool
+		if l, ok = params.GetValues(params.Context, []string{key})[key].([]string); !ok {
+			return nil, errors.New("LPUSH command on non-list item")
+		}
 	}
 
 	if err = params.SetValues(params.Context, map[string]interface{}{key: append(newElems, l...)}); err != nil {
@@ -437,17 +437,17 @@ func handleRPush(params internal.HandlerFuncParams) ([]byte, error) {
 		switch strings.ToLower(params.Command[0]) {
 		case "rpushx":
 			return nil, errors.New("RPUSHX command on non-existent key")
-		default:
-			if err = params.SetValues(params.Context, map[string]interface{}{key: []string{}}); err != nil {
-				return nil, err
-			}
 		}
 	}
 
-	currentList := params.GetValues(params.Context, []string{key})[key]
-	l, ok := currentList.([]string)
-	if !ok {
-		return nil, errors.New("RPUSH command on non-list item")
+	// A key that does not exist is pushed to as an empty list. It is created by the single write below,
+	// so that nothing is left behind if that write is refused.
+	var l []string
+	if keyExists {
+		var ok bool
+		if l, ok = params.GetValues(params.Context, []string{key})[key].([]string); !ok {
+			return nil, errors.New("RPUSH command on non-list item")
+		}
 	}
 
 	if err = params.SetValues(params.Context, map[string]interface{}{key: append(l, newElems...)}); err != nil {
